@@ -247,12 +247,15 @@ func (r *schemaLoader) deref(input interface{}, parentRefs []string, basePath st
 	}
 
 	if ref.String() == "" || ref.String() == curRef {
-		// done with rereferencing
+		// done with rereferencing: leave the last $ref followed in a form that
+		// reads the same from any base path
+		*ref = *normalizedRef
 		return nil
 	}
 
+	// the next $ref is written relative to the document we have just entered
 	parentRefs = append(parentRefs, normalizedRef.String())
-	return r.deref(input, parentRefs, normalizedBasePath)
+	return r.transitiveResolver(basePath, *normalizedRef).deref(input, parentRefs, normalizedBasePath)
 }
 
 func (r *schemaLoader) shouldStopOnError(err error) bool {
